@@ -1461,6 +1461,9 @@ def macro_bodies():
     out.append(("eefirst", "e", [seg("eeprom"), data(1, ARG(0), E(2), E(3)), seg("code"), instr("nop")]))
     out.append(("eeonly", "e", [seg("eeprom"), data(2, ARG(0)), byte(1)]))          # ends in the EEPROM segment: known finding
     out.append(("ramfirst", "e", [seg("data"), byte(arg(0)), seg("code")]))
+    out.append(("eelast", "e", [instr("nop"), seg("eeprom"), data(1, ARG(0)), seg("code")]))        # returns to code with nothing after: the caller goes on in code
+    out.append(("eeonlyback", "e", [seg("eeprom"), data(2, ARG(0)), seg("code")]))
+    out.append(("ramlast", "e", [instr("nop"), seg("data"), byte(arg(0)), seg("code")]))
     out.append(("ten", "rrreeeeeee", [instr("mov", ARG(0), ARG(1)), instr("ldi", ARG(2), E(binop("&", arg(9), lit(255)))),
                                       data(1, ARG(3), ARG(4), ARG(5), ARG(6), ARG(7), ARG(8), ARG(9))]))
     out.append(("tenfwd", "rrreeeeeee", [call("ten", ARG(2), ARG(1), ARG(0), ARG(9), ARG(8), ARG(7), ARG(6), ARG(5), ARG(4), ARG(3))]))
@@ -1608,6 +1611,8 @@ def check_c09(prop, tier, seed, devices):
                 prog = head + defs + [instr("nop"), org(0x20)] + calls + [instr("ret")]
             else:
                 prog = head + defs + [instr("nop"), seg("data"), byte(2), seg("code")] + calls + [instr("ret")]
+            if name in ("eelast", "eeonlyback", "ramlast", "eefirst", "ramfirst"):
+                prog = prog + [data(1, E(0x42), E(0x43)), instr("sleep")]
             if name == "bump":
                 prog = prog + [instr("ldi", R(20), E(sym("cnt"))), data(1, E(sym("cnt")), E(0))]
             if name in ("rebind", "release"):
